@@ -69,7 +69,7 @@ func c02File(c *C02Case) *File {
 	return f
 }
 
-func c02Src(c *C02Case) string { return Canon(c02File(c)) }
+func c02Src(c *C02Case) string { return CanonMaybeDense(c02File(c)) }
 
 // c02Expected is the outcome the statement of C02 demands for a context, given the value of E.
 func c02Expected(ctx int, value bool) string {
